@@ -127,3 +127,29 @@ def tiny_curves(rng, count, pmin=200, pmax=1500, a_minus3=None, prime_order=True
 # Named-curve parameters are *read from the repository object* by the checks
 # (they are the subject of C11's constants clause); OpenSSL is the independent
 # cross-check there.
+
+
+def cofactor_curves(rng, count, pmin=200, pmax=900):
+  """Tiny curves whose group order is h*r with r prime and h >= 2; the
+  generator has order r (c.n), c.h = h."""
+  out = []
+  while len(out) < count:
+    p = rng.randint(pmin, pmax)
+    if not is_prime_small(p) or p < 5:
+      continue
+    c = Curve(p, rng.randint(0, p - 1), rng.randint(1, p - 1))
+    if not c.nonsingular():
+      continue
+    pts = c.points()
+    go = len(pts) + 1
+    r = max(d for d in range(2, go + 1) if go % d == 0 and is_prime_small(d))
+    h = go // r
+    if h < 2 or r < 11:
+      continue
+    g = INF
+    while g is INF:
+      g = c.mul(pts[rng.below(len(pts))], h)
+    c.g, c.n, c.h, c.group_order = g, r, h, go
+    c.name = 'cof%d-p%d-a%d-b%d' % (h, p, c.a, c.b)
+    out.append(c)
+  return out
